@@ -17,6 +17,7 @@ package bmqsim
 
 //@ func (sim *BmQSimulator) RunSoftwareSimulation() error
 //@   requires sim != nil
+//@   requires matrices: forall m int :: 0 <= m && m < len(sim.Mtx) && sim.Mtx[m] != nil ==> wfMatrix(sim.Mtx[m])
 //@   ensures shape: result == nil ==> len(sim.Outputs) == len(sim.Inputs)
 //@   ensures own: result == nil ==> (forall k int :: 0 <= k && k < len(sim.Inputs) ==> fresh(sim.Outputs[k].Vector))
 //@   ensures distinct: result == nil ==> (forall k int, l int :: 0 <= k && k < l && l < len(sim.Inputs) ==> arr(sim.Outputs[k].Vector) != arr(sim.Outputs[l].Vector))
